@@ -499,3 +499,54 @@ def verbatim_loads(rule, prog, ctor, adt_path, fields, what):
             rule.undecidable(key, "no construction of %s.%s from a deserialised file found in %s" % (adt_path, f, ctor), fn_line(prog, ctor))
         else:
             rule.ok(key, "%s.%s = the deserialised file, unmodified" % (adt_path.rsplit("::", 1)[-1], f))
+
+
+def pure_table_accessors(rule, prog, owner_ty, want=None):
+    """Shared rule body: every look-up accessor of `owner_ty` that reads one of its HashMap tables is a pure look-up of its own argument:
+    the `get` is executed on every path, is keyed by the accessor's parameter (through value-preserving conversions only), every branch
+    of the accessor is a test of the look-up's own result, and the result is derived from it.  A shortcut in front of the look-up (a
+    length bound, a cache, a pre-filter) makes entries of the data file unreachable for particular arguments."""
+    from . import roles as _roles
+    from engine.analyses import contains_call, peel_conv
+    n = 0
+    for k, f in sorted(prog.fns.items()):
+        imp = f.get("impl") or {}
+        if (imp.get("self") or "") != owner_ty or imp.get("trait") or f.get("kind") == "Closure" or len(f.get("inputs") or []) != 2:
+            continue
+        b = _roles.ib(prog, k)
+        gets = [(bb, t) for (bb, t) in b.calls() if callee_name(t).endswith("::get") and "HashMap" in callee_name(t)
+                and self_path(b.expr_operand(t["args"][0])) is not None and len(self_path(b.expr_operand(t["args"][0]))) == 1]
+        if not gets:
+            continue
+        short = k.rsplit("::", 1)[-1]
+        key = "lookup:%s" % short
+        n += 1
+        if len(gets) != 1:
+            rule.violation(key, "%s performs %d table look-ups" % (short, len(gets)), fn_line(prog, k))
+            continue
+        gbb, gt = gets[0]
+        keyarg = peel_conv(b.expr_operand(gt["args"][1]))
+        rets = [i for i in b.rblocks if b.blocks[i]["term"]["k"] == "return"]
+        if not (keyarg.k == "arg" and keyarg.a[0] == 2):
+            rule.violation(key, "%s looks %r up instead of its own argument" % (short, keyarg), site_dict(prog, k, b, gbb))
+            continue
+        if not all(b.dominates(gbb, r_) for r_ in rets):
+            rule.violation(key, "%s can return without consulting the table (a shortcut in front of the look-up): entries of the data file become unreachable for some arguments"
+                           % short, site_dict(prog, k, b, gbb))
+            continue
+        stray = None
+        for i in b.rblocks:
+            t = b.blocks[i]["term"]
+            if t["k"] == "switch":
+                d = strip_refs(b.expr_operand(t["discr"]))
+                if contains_call(d, lambda nm: nm == callee_name(gt)) is None:
+                    stray = (i, d)
+        if stray is not None:
+            rule.violation(key, "%s branches on %r, which is not the look-up's own result" % (short, stray[1]), site_dict(prog, k, b, stray[0]))
+            continue
+        ret = b.expr_local(0)
+        if contains_call(ret, lambda nm: nm == callee_name(gt)) is None:
+            rule.violation(key, "%s does not return what the table look-up found (%r)" % (short, strip_refs(ret)), fn_line(prog, k))
+            continue
+        rule.ok(key, "%s(x) = self.%s.get(x) on every path, nothing else decides the result" % (short, self_path(b.expr_operand(gt["args"][0]))[0]))
+    return n
